@@ -27,21 +27,23 @@ META = dict(
          "(shared parse model + the captive _FB lookahead) on infixGrammar(table) returns exactly [nest table tree] for every "
          "fuel from some point on - tighter levels nest inside looser ones, a LEFT-associative chain a op b op c is ONE flat "
          "group [a, op, b, op, c], a POSTFIX chain a op op is ONE flat group [a, op, op] (chains of any length; loop "
-         "induction over manyLoop), right-associative chains nest to the right, prefix operators stack, parentheses override "
+         "induction over manyLoop), right-associative chains nest to the right, a RIGHT-associative ternary a op1 b op2 c "
+         "is one group of five nesting to the right, prefix operators stack, parentheses override "
          "all; a kept (non-Suppress) lpar/rpar gives the group [lpar?, inner, rpar?], suppressed ones leave no trace. "
          "Class G: operand Word(cs); lpar and rpar each suppressed or kept; every level a LEFT- or RIGHT-associative binary, "
-         "a prefix or a postfix operator without parse action; spellings non-empty, not starting with a blank or operand "
-         "character, pairwise prefix-incomparable. The earlier statements are kept and are instances: "
+         "a prefix, a postfix or a RIGHT-associative ternary operator without parse action; spellings non-empty, not starting "
+         "with a blank or operand character, first operators pairwise prefix-incomparable, a ternary level's second operator "
+         "prefix-incomparable with every first operator. The earlier statements are kept and are instances: "
          "PP.Infix.infix_roundtrip_left_partial (C16Left.lean; class TL = G without postfix levels, suppressed parentheses; "
          "infix_roundtrip_general_covers_left) and PP.Infix.infix_roundtrip_partial (C16.lean; class T = TL without "
          "LEFT-associative levels; infix_roundtrip_left_covers_right). infix_roundtrip_post_partial spells the conclusion "
          "out for a postfix application. Supporting theorems: Gen.post_parse/Gen.goal_post (the _FB(last + op) lookahead "
          "succeeds, Group(last + op[1,...]) collects every operator and stops where the literal does not match), "
          "Gen.chain_parse/Gen.goal_binL (left-associative chains), Gen.goal_paren (all four suppress/keep combinations), "
-         "Gen.goal_lift (a tighter tree passes through a looser level of any of the four kinds unchanged: the _FB lookahead "
-         "fails), Gen.goal_atom/goal_pre/goal_binR, Gen.p_nest, Left.chain_nest. "
+         "Gen.goal_lift (a tighter tree passes through a looser level of any of the five kinds unchanged: the _FB lookahead "
+         "fails), Gen.goal_atom/goal_pre/goal_binR/goal_ternR, Gen.p_nest, Left.chain_nest. "
          "PARTIAL - NOT proved, covered by the correspondence legs and the independent precedence-climbing oracle only: "
-         "ternary levels, "
+         "LEFT-associative ternary levels, "
          "level parse actions, overlapping spellings (<, <=, *, **), ill-formed strings, evaluation (a corollary of the "
          "nesting) and packrat (C02's packrat_transparent covers the shared model, not parseStepX/_FB; packrat is compared on "
          "the real code on every case).",
@@ -91,6 +93,7 @@ THEOREMS = [
     "PP.Infix.Gen.goal_paren",
     "PP.Infix.Gen.goal_pre",
     "PP.Infix.Gen.goal_binR",
+    "PP.Infix.Gen.goal_ternR",
 ]
 
 WS_DEFAULT = " \t\n\r"
